@@ -163,6 +163,10 @@ def run_history(case):
                     out.append(Disc('call-not-sent', '%d messages written for one call' % len(sent)))
                     break
                 c.serial = sent[0]['serial']
+                want_flags = 0 if p['expect'] else 1       # autoStart is left at its documented default (allowed): bit 2 clear
+                if sent[0]['flags'] & 3 != want_flags:
+                    out.append(Disc('call-flags', 'expectReply=%r, autoStart left at its default: flags byte %d, expected %d' % (
+                        p['expect'], sent[0]['flags'], want_flags)))
                 if any(o.serial == c.serial for o in calls):
                     out.append(Disc('serial-reused', str(c.serial)))
                 if not p['expect']:
